@@ -56,11 +56,23 @@ def rule_cpform(ctx: Ctx) -> List[Ob]:
     to algebraic equivalence, with and without a limited-memory matrix"""
     f = ctx.repo.func("cauchy.get_cauchy_point")
     obs: List[Ob] = []
-    loops = [s for s in f.node.body if isinstance(s, ast.While)]
+    loops = [s for s in f.node.body if isinstance(s, (ast.While, ast.For))]
     need(len(loops) == 1, "CPFORM: breakpoint loop not found at function level")
     lp = loops[0]
     pre = f.node.body[: f.node.body.index(lp)]
     post = f.node.body[f.node.body.index(lp) + 1:]
+    # two shapes of the same walk:  (W) `while _i < len(list)` with a priming read before the loop and an "advance"
+    # statement (try / if) at the end of the body;  (F) `for ibp in list:` that reads t_cur = t[ibp] and computes
+    # delta_t = t_cur - t_old at the top of the body, with `else: t_cur = inf`.
+    for_form = isinstance(lp, ast.For)
+    loop_body = list(lp.body)
+    control_top: List[ast.stmt] = []
+    if for_form:
+        need(isinstance(lp.target, ast.Name), "CPFORM: loop target of the breakpoint walk is not a name")
+        while loop_body and set(_top_targets(loop_body[0])) & {"t_cur", "delta_t"}:
+            control_top.append(loop_body.pop(0))
+        need(any("t_cur" in _top_targets(x) for x in control_top) and any("delta_t" in _top_targets(x) for x in control_top),
+             "CPFORM: the for-form of the breakpoint walk does not start by reading t_cur and delta_t")
     theta, f1, f2, dt, gb, zb, f2o, eps, tcur, told = _sym("theta", "f1", "f2", "dt", "g_b", "z_b", "f2org", "eps", "t_cur", "t_old")
     for use in (True, False):
         tag = "with memory" if use else "empty memory"
@@ -84,7 +96,7 @@ def rule_cpform(ctx: Ctx) -> List[Ob]:
                           construct=f"init[{tag}] {nm}"))
         # ---------------- (b) one pass of the loop body
         body = []
-        for s in lp.body:
+        for s in loop_body:
             if _is_advance(s):
                 break
             if _is_pinning(s):
@@ -151,28 +163,43 @@ def rule_cpform(ctx: Ctx) -> List[Ob]:
     tnext = sp.Symbol("t_next", real=True)
     after = []
     seen_try = False
-    trys = [s for s in lp.body if _is_advance(s)]
-    for s in lp.body:
+    trys = [s for s in loop_body if _is_advance(s)]
+    for s in loop_body:
         if _is_advance(s):
             seen_try = True
             continue
         if seen_try:
             after.append(s)
-    K = Kernel(bindings={}, conds={}, maps={})
-    K.env.update({"t_cur": Sc(tnext), "t_old": Sc(tcur), "nseg": Sc(S("nseg")), "delta_t": Sc(dt)})
-    K.run([s for s in after if set(_top_targets(s)) & {"delta_t", "t_old"}])
+    if for_form:
+        K = Kernel(bindings={f"t[{lp.target.id}]": Sc(tnext)}, conds={}, maps={})
+        K.env.update({"t_old": Sc(tcur), "nseg": Sc(S("nseg")), "delta_t": Sc(dt)})
+        K.run(control_top)
+        after = control_top
+    else:
+        K = Kernel(bindings={}, conds={}, maps={})
+        K.env.update({"t_cur": Sc(tnext), "t_old": Sc(tcur), "nseg": Sc(S("nseg")), "delta_t": Sc(dt)})
+        K.run([s for s in after if set(_top_targets(s)) & {"delta_t", "t_old"}])
     ok, why = equal(K.env["delta_t"], Sc(tnext - tcur))
     obs.append(ob("CPFORM", "next segment length is (next breakpoint) - (current breakpoint)", f, after[0] if after else lp, ok,
                   f"delta_t = {K.env['delta_t']}" + ("" if ok else f"; {why}"), construct="loop delta_t = t_cur - t_old"))
-    K = Kernel(bindings={}, conds={}, maps={})
+    K = Kernel(bindings={f"t[{lp.target.id}]": Sc(tcur)} if for_form else {}, conds={}, maps={})
     K.env.update({"t_cur": Sc(tcur)})
-    K.run([s for s in pre if set(_top_targets(s)) & {"t_old", "delta_t"}])
+    K.run([s for s in pre if set(_top_targets(s)) & {"t_old", "delta_t"}] + (control_top if for_form else []))
     ok = "t_old" in K.env and "delta_t" in K.env and equal(K.env["t_old"], Sc(0))[0] and equal(K.env["delta_t"], Sc(tcur))[0]
     obs.append(ob("CPFORM", "the path starts at t = 0 and the first segment ends at the first breakpoint", f, pre[-1], ok,
                   f"t_old = {K.env.get('t_old')}, delta_t = {K.env.get('delta_t')}", construct="init t_old = 0, delta_t = t_cur"))
     def _alt(a):
         return [x for h in a.handlers for x in h.body] if isinstance(a, ast.Try) else list(a.orelse)
-    okh = len(trys) == 1 and any(isinstance(x, ast.Assign) and src(x.targets[0]) == "t_cur" and src(x.value) in ("np.inf", "float('inf')", "math.inf")
+    if for_form:
+        # `else:` of the for runs exactly when the list is exhausted without the early exit
+        trys = [lp]
+        okh = any(isinstance(x, ast.Assign) and src(x.targets[0]) == "t_cur" and src(x.value) in ("np.inf", "float('inf')", "math.inf")
+                  for x in lp.orelse) and \
+            any(isinstance(x, (ast.Assign, ast.AnnAssign)) and "t_cur" in _top_targets(x) and isinstance(x.value, ast.Subscript) and src(x.value.value) == "t"
+                and src(x.value.slice) == lp.target.id for x in control_top) and \
+            any("delta_t" in _top_targets(x) for x in lp.orelse)
+    else:
+      okh = len(trys) == 1 and any(isinstance(x, ast.Assign) and src(x.targets[0]) == "t_cur" and src(x.value) in ("np.inf", "float('inf')", "math.inf")
                                  for x in _alt(trys[0])) and \
         any(isinstance(x, ast.Assign) and src(x.targets[0]) == "t_cur" and isinstance(x.value, ast.Subscript) and src(x.value.value) == "t"
             for x in trys[0].body)
@@ -186,8 +213,15 @@ def rule_cpform(ctx: Ctx) -> List[Ob]:
     ctr_defs = [s for s in walk_no_nested(f.node) if isinstance(s, (ast.Assign, ast.AugAssign, ast.AnnAssign)) and "_i" in _top_targets(s)]
     from ..flow import Expander as _Ex
     fex = _Ex(ctx, f, only=lambda v: isinstance(v, ast.Name) or (isinstance(v, ast.Call) and dotted(v.func) == "len"))
-    guard_src = src(fex.expand_at(lp.test, lp.test)).replace(" ", "")
-    okc = len(ctr_defs) == 2 and isinstance(ctr_defs[0], ast.Assign) and isinstance(ctr_defs[0].value, ast.Constant) and ctr_defs[0].value.value == 0 \
+    if for_form:
+        it_src = src(fex.expand_at(lp, lp.iter)).replace(" ", "")
+        guard_src = f"for {lp.target.id} in {it_src}"
+        # every breakpoint once, in list order: no `continue`, and the walk target is not rebound in the body
+        rebound = any(isinstance(x, ast.Name) and x.id == lp.target.id and isinstance(x.ctx, ast.Store) for b in lp.body for x in ast.walk(b))
+        okc = it_src == "sorted_t_idx" and not rebound and not any(isinstance(x, ast.Continue) for b in lp.body for x in ast.walk(b)) and not ctr_defs
+    else:
+      guard_src = src(fex.expand_at(lp.test, lp.test)).replace(" ", "")
+      okc = len(ctr_defs) == 2 and isinstance(ctr_defs[0], ast.Assign) and isinstance(ctr_defs[0].value, ast.Constant) and ctr_defs[0].value.value == 0 \
         and isinstance(ctr_defs[1], ast.AugAssign) and isinstance(ctr_defs[1].op, ast.Add) and isinstance(ctr_defs[1].value, ast.Constant) \
         and ctr_defs[1].value.value == 1 and ctr_defs[1] in lp.body and guard_src in ("_i<len(sorted_t_idx)", "len(sorted_t_idx)>_i")
     obs.append(ob("CPFORM", "breakpoints are consumed one per iteration from the first", f, ctr_defs[0] if ctr_defs else lp, okc,
@@ -346,6 +380,11 @@ def rule_bfgsform(ctx: Ctx) -> List[Ob]:
     gate = [s for s in f.node.body if isinstance(s, ast.If) and "is_force_update" in src(s.test)]
     need(len(gate) == 1, "BFGSFORM: acceptance gate of update_lbfgs_matrices not found")
     body = gate[0].body
+    if all(isinstance(x, (ast.Return, ast.Pass)) for x in body) and not gate[0].orelse:
+        # inverted guard: `if not (forced or accepted): return mats` followed by the update
+        body = f.node.body[f.node.body.index(gate[0]) + 1:]
+    elif all(isinstance(x, (ast.Return, ast.Pass)) for x in body) and gate[0].orelse:
+        body = gate[0].orelse
     # theta through the scalar/vector kernel
     K = Kernel(bindings={"G[-1]": Vec({"g1": 1}), "G[-2]": Vec({"g0": 1}), "X[-1]": Vec({"x1": 1}), "X[-2]": Vec({"x0": 1})},
                conds={}, maps={}, ignore_stores={"mats"})
@@ -425,6 +464,13 @@ def rule_filterwalk(ctx: Ctx) -> List[Ob]:
     used = {src(x.slice) for x in ast.walk(lp) if isinstance(x, ast.Subscript) and src(x.value) == Xp}
     if isinstance(lp, ast.For):
         rng = lp.iter
+        rev = False
+        if isinstance(rng, ast.Call) and dotted(rng.func) == "reversed" and len(rng.args) == 1:
+            rng, rev = rng.args[0], True
+        elif isinstance(rng, ast.Call) and dotted(rng.func) == "range" and len(rng.args) == 3 and src(rng.args[1]) == "-1" and src(rng.args[2]) == "-1" \
+                and isinstance(rng.args[0], ast.BinOp) and isinstance(rng.args[0].op, ast.Sub) and src(rng.args[0].right) == "1":
+            # range(N - 1, -1, -1)
+            rng, rev = ast.Call(func=rng.func, args=[rng.args[0].left], keywords=[]), True
         okr = isinstance(rng, ast.Call) and dotted(rng.func) == "range" and len(rng.args) == 1 and isinstance(lp.target, ast.Name)
         n_it = K.ev(rng.args[0]) if okr else None
         ok = okr and equal(n_it, Sc(L - 1))[0]
@@ -432,10 +478,13 @@ def rule_filterwalk(ctx: Ctx) -> List[Ob]:
                       f"range({n_it.e if n_it is not None else '?'}) with L = len({Xp})", construct="walk over the older points: count"))
         okk, v = False, None
         if okr:
-            K.env[lp.target.id] = Sc(i)
+            K.env[lp.target.id] = Sc(n_it.e - 1 - i) if rev else Sc(i)
             for s in lp.body:
                 if isinstance(s, (ast.Assign, ast.AnnAssign)) and isinstance((s.targets[0] if isinstance(s, ast.Assign) else s.target), ast.Name):
-                    K.stmt(s)
+                    try:
+                        K.stmt(s)
+                    except AnalysisError:
+                        pass      # not index arithmetic (e.g. a local name for the visited point)
             if len(used) == 1:
                 v = K.ev(ast.parse(list(used)[0], mode="eval").body)
                 okk = equal(v, Sc(L - 2 - i))[0]
@@ -528,11 +577,47 @@ def rule_stepinit(ctx: Ctx) -> List[Ob]:
                   f"values reaching the first _iterate call from before the loop: f <- {got['f']}, g <- {got['g']}",
                   construct="first dcsrch call: (f0, g0.dot(d))"))
     g = ctx.repo.func("linesearch.max_allowed_steplength")
-    first = [s for s in g.node.body if isinstance(s, ast.If)]
-    ok1 = bool(first) and src(first[0].test) == "n_iter == 0" and isinstance(first[0].body[0], ast.Return) and \
-        isinstance(first[0].body[0].value, ast.Constant) and first[0].body[0].value.value == 1.0
-    obs.append(ob("STEPINIT", "first-iteration step cap is 1 (documented deviation of the port)", g, first[0] if first else g.node, ok1,
-                  f"{short(first[0], 60) if first else 'missing'}", construct="if n_iter == 0: return 1.0"))
+    # on the first iteration (n_iter == 0) every reachable return is the constant 1.0; on later iterations none is a constant
+    gcfg0 = ctx.cfg(g)
+    itp = g.params[5] if len(g.params) > 5 else "n_iter"
+
+    def _first_iter_atom(t) -> Optional[bool]:
+        """True if the atom holds exactly on the first iteration, False if exactly on the others"""
+        if isinstance(t, ast.Compare) and len(t.ops) == 1:
+            l, r_ = t.left, t.comparators[0]
+            if isinstance(r_, ast.Name) and isinstance(l, ast.Constant):
+                l, r_ = r_, l
+            if isinstance(l, ast.Name) and l.id == itp and isinstance(r_, ast.Constant) and r_.value == 0:
+                if isinstance(t.ops[0], ast.Eq):
+                    return True
+                if isinstance(t.ops[0], (ast.NotEq, ast.Gt)):
+                    return False
+            if isinstance(l, ast.Name) and l.id == itp and isinstance(r_, ast.Constant) and r_.value == 1 and isinstance(t.ops[0], ast.Lt):
+                return True
+            if isinstance(l, ast.Name) and l.id == itp and isinstance(r_, ast.Constant) and r_.value == 1 and isinstance(t.ops[0], ast.GtE):
+                return False
+        return None
+    atoms = [(n_, _first_iter_atom(n_.ast)) for n_ in gcfg0.nodes if n_.kind == "test" and _first_iter_atom(n_.ast) is not None]
+    rets_g = [n_ for n_ in gcfg0.nodes if isinstance(n_.ast, ast.Return)]
+
+    def _reach(first_iteration: bool):
+        def edge_ok(a, b, lab):
+            for n_, holds_first in atoms:
+                if a is n_ and lab in (True, False) and (lab == holds_first) != first_iteration:
+                    return False
+            return True
+        r_ = gcfg0.reachable(gcfg0.entry, follow_exc=False, edge_ok=edge_ok)
+        return [n_ for n_ in rets_g if n_ in r_]
+    r_first, r_later = _reach(True), _reach(False)
+
+    def _is_one(n_):
+        v_ = n_.ast.value
+        return isinstance(v_, ast.Constant) and not isinstance(v_.value, bool) and v_.value == 1
+    ok1 = bool(atoms) and bool(r_first) and all(_is_one(n_) for n_ in r_first) and bool(r_later) and \
+        not any(isinstance(n_.ast.value, ast.Constant) for n_ in r_later)
+    obs.append(ob("STEPINIT", "first-iteration step cap is 1 (documented deviation of the port)", g, r_first[0].ast if r_first else g.node, ok1,
+                  f"returns on the first iteration: {[short(n_.ast.value) for n_ in r_first]}; later: {[short(n_.ast.value, 30) for n_ in r_later]}",
+                  construct="if n_iter == 0: return 1.0"))
     from ..flow import Expander
     gx = Expander(ctx, g)
     gcfg, grd = ctx.cfg(g), ctx.rd(g)
@@ -611,6 +696,9 @@ def rule_pgform(ctx: Ctx) -> List[Ob]:
     if isinstance(t, ast.UnaryOp) and isinstance(t.op, ast.Not):
         t = t.operand      # `if not (r < ftol): return False` -- which branch stops is EXIT's business
     ok2, why2 = False, f"test `{short(t)}`"
+    if isinstance(t, ast.Compare) and len(t.ops) == 1 and isinstance(t.ops[0], (ast.Gt, ast.GtE)) and src(t.left) == ft:
+        # mirrored spelling `ftol > r`
+        t = ast.Compare(left=t.comparators[0], ops=[ast.Lt() if isinstance(t.ops[0], ast.Gt) else ast.LtE()], comparators=[t.left])
     if isinstance(t, ast.Compare) and len(t.ops) == 1 and isinstance(t.ops[0], (ast.Lt, ast.LtE)) and src(t.comparators[0]) == ft:
         a, b = sp.Symbol("f_new", real=True), sp.Symbol("f_old", real=True)
         K = Kernel(bindings={f0: Sc(a), fo: Sc(b)}, conds={}, maps={})
@@ -722,6 +810,17 @@ def rule_kfact(ctx: Ctx) -> List[Ob]:
                 return ("K",)
             ds = defs.get(e.id, [])
             return kf(ds[0]) if len(ds) == 1 and ds[0] is not None else ("?", e.id)
+        if isinstance(e, ast.Subscript) and isinstance(e.slice, ast.Tuple) and len(e.slice.elts) == 2 and src(e.value) != "K":
+            # K[rows][:, cols]: a row-range view of K, then a column range
+            base_ = e.value
+            if isinstance(base_, ast.Name) and len(defs.get(base_.id, [])) == 1 and defs[base_.id][0] is not None:
+                base_ = defs[base_.id][0]
+            full = e.slice.elts[0]
+            if isinstance(base_, ast.Subscript) and src(base_.value) == "K" and isinstance(base_.slice, ast.Slice) and \
+                    isinstance(full, ast.Slice) and full.lower is None and full.upper is None and full.step is None:
+                a, b = rng(base_.slice), rng(e.slice.elts[1])
+                if a is not None and b is not None:
+                    return ("blk", a, b) if (a, b) != (1, 0) else ("T", ("blk", 0, 1))
         if isinstance(e, ast.Subscript) and isinstance(e.slice, ast.Tuple) and len(e.slice.elts) == 2 and src(e.value) == "K":
             a, b = rng(e.slice.elts[0]), rng(e.slice.elts[1])
             if a is not None and b is not None:
@@ -789,7 +888,10 @@ def rule_kfact(ctx: Ctx) -> List[Ob]:
             val = src(e).replace(" ", "")
             trivial = val in ("np.sqrt(K)", "K**0.5", "np.sqrt(np.abs(K))")
             g = src(guard.test).replace(" ", "") if guard is not None else ""
-            small = g in ("K.size<4", "K.size==1", "K.size<2", "K.size<=1", "K.shape[0]<2", "K.shape[0]==1", "K.shape[0]<=1", "len(K)<2", "len(K)==1")
+            SMALL = ("K.size<4", "K.size==1", "K.size<2", "K.size<=1", "K.shape[0]<2", "K.shape[0]==1", "K.shape[0]<=1", "len(K)<2", "len(K)==1")
+            from ..core import bool_equiv
+            small = g in SMALL or (guard is not None and any(bool_equiv(guard.test, x) for x in
+                                                           ("K.size < 4", "K.size < 2", "K.size <= 1", "K.shape[0] < 2", "len(K) < 2")))
             if trivial and guard is not None and not small:
                 raise AnalysisError(f"KFACT: guard `{short(guard.test)}` of the trivial exit is not a recognised 'K is 1x1' test")
             okd = trivial and small
